@@ -1355,3 +1355,102 @@ def isScalar : PyVal → Bool
   | _ => false
 
 end Coba.C15
+
+/-! ### Phase 4: the format is decided once; memo-aware learn -/
+
+namespace Coba.C15
+
+/-- what `_parse_pred` memoises on the first call -/
+structure Decided where
+  lay : BLayout
+  kw : Bool
+  f : PFmt
+deriving Repr
+
+def State.decidedAs (st : State) (d : Decided) : Prop :=
+  st.layout = some d.lay ∧ st.hasKw = d.kw ∧ st.fmt = some d.f
+
+/-- the decision a state carries, if any -/
+def State.decided? (st : State) : Option Decided :=
+  match st.layout, st.fmt with
+  | some l, some f => some ⟨l, st.hasKw, f⟩
+  | _, _ => Option.none
+
+/-- a wrapper that only knows the decided format, the generator state and the call style memo: no cached actions -/
+def State.core (st : State) : State :=
+  { rng := st.rng, method := st.method, layout := st.layout, hasKw := st.hasKw, fmt := st.fmt }
+
+def State.withCache (s st : State) : State := { s with prev := st.prev, safe := st.safe }
+
+/-- a whole evaluation in which every call is made on a wrapper that has the format `d` decided beforehand: only the
+generator state, the call-style memo and the action cache are threaded from call to call -/
+def runFrozen (fx : Fixes) (L : Learner) (d : Decided) : State → List Arg → Except Err (List Result)
+  | _, [] => pure []
+  | st, a :: as => do
+    let (r, st') ← predict fx L { st with layout := some d.lay, hasKw := d.kw, fmt := some d.f } a
+    let rs ← runFrozen fx L d st' as
+    pure (r :: rs)
+
+/-- `run` the way `history_format_decided_once` splits it: the first call decides, the rest is `runFrozen` -/
+def runSplit (fx : Fixes) (L : Learner) (st : State) : List Arg → Except Err (List Result)
+  | [] => pure []
+  | a :: as => do
+    let (r, st') ← predict fx L st a
+    match st'.decided? with
+    | some d => (runFrozen fx L d st' as).map (fun rs => r :: rs)
+    | Option.none => .error .other
+
+/-- `run` with every call on a decided wrapper made on `State.core` (nothing of the history but format, generator, memo) -/
+def runCore (fx : Fixes) (L : Learner) : State → List Arg → Except Err (List Result)
+  | _, [] => pure []
+  | st, a :: as => do
+    let st1 := (prepare fx st a).1
+    let sarg := (prepare fx st a).2
+    let (r, st') ← (if st1.layout.isSome then (predictCore fx L st1.core sarg).map (fun p => (p.1, p.2.withCache st1))
+                    else predictCore fx L st1 sarg)
+    let rs ← runCore fx L st' as
+    pure (r :: rs)
+
+/-- `SafeLearner.learn` with the call-style memo `_method['learn']` (decided on the FIRST learn call and kept, also when the
+wrapper is later switched between batched and unbatched calls): memo 1 passes everything straight to the learner (a learner
+whose learn cannot batch then raises), memo 2 calls `_method2` (per row; on an unbatched call `zip(*args)` over scalars raises) -/
+def learnM (batchable : Bool) (memo : Option Nat) (arg : Arg) (res : Result) (reward : PyVal) : Except Err (List LearnCall × Nat) :=
+  match res.kw with
+  | .dict _ ks vs =>
+    let perRow (cs : List PyVal) : Except Err (List LearnCall × Nat) := do
+      let A ← itemsE res.a
+      let R ← itemsE reward
+      let P ← itemsE res.p
+      let calls ← learnRows 0 cs A R P ks vs
+      if calls.isEmpty then .error .coba else pure (calls, 2)
+    match memo, arg with
+    | some 2, .single _ _ => .error .other
+    | some 2, .batch cs _ => perRow cs
+    | some _, .single c _ => pure ([⟨c, res.a, reward, res.p, ks, vs⟩], 1)
+    | some _, .batch cs _ => if batchable then pure ([⟨.list .tmp cs, res.a, reward, res.p, ks, vs⟩], 1) else .error .learner
+    | Option.none, .single c _ => pure ([⟨c, res.a, reward, res.p, ks, vs⟩], 1)
+    | Option.none, .batch cs _ => if batchable then pure ([⟨.list .tmp cs, res.a, reward, res.p, ks, vs⟩], 1) else perRow cs
+  | _ => .error .type
+
+/-- predict / learn histories with both memos threaded; stops at the first error, reporting what was delivered so far -/
+def runHistoryM (fx : Fixes) (L : Learner) (batchable : Bool) : State → Option Nat → List (Arg × PyVal) → List (Except Err (Result × List LearnCall))
+  | _, _, [] => []
+  | st, memo, (a, rw) :: h =>
+    match predict fx L st a with
+    | .error e => [.error e]
+    | .ok (r, st') =>
+      match learnM batchable memo a r rw with
+      | .error e => [.error e]
+      | .ok (lc, m') => .ok (r, lc) :: runHistoryM fx L batchable st' (some m') h
+
+/-- the memo value a uniformly used wrapper holds for learn -/
+def learnMemoOK (batchable : Bool) (memo : Option Nat) (arg : Arg) : Bool :=
+  match memo, arg with
+  | Option.none, _ => true
+  | some 1, .single .. => true
+  | some 1, .batch .. => batchable
+  | some 2, .batch .. => !batchable
+  | _, _ => false
+
+
+end Coba.C15
